@@ -13,7 +13,9 @@ use crate::helpers::{
     validate_emergency_unlock_penalty, validate_farm_epochs, validate_farm_expiration_time,
     validate_identifier, validate_lp_denom, validate_unlocking_duration,
 };
-use crate::state::{get_farm_by_identifier, get_farms_by_lp_denom, CONFIG, FARMS, FARM_COUNTER};
+use crate::state::{
+    get_farm_by_identifier, get_farms_by_lp_denom, CONFIG, FARMS, FARM_COUNTER, MAX_FARMS_LIMIT,
+};
 use crate::ContractError;
 
 /// Creates a farm with the given params
@@ -323,6 +325,14 @@ pub(crate) fn update_config(
         ensure!(
             max_concurrent_farms >= config.max_concurrent_farms,
             ContractError::MaximumConcurrentFarmsDecreased
+        );
+
+        // farms are only ever loaded up to MAX_FARMS_LIMIT per LP, a higher value could not be enforced
+        ensure!(
+            max_concurrent_farms <= MAX_FARMS_LIMIT,
+            ContractError::MaximumConcurrentFarmsExceeded {
+                max: MAX_FARMS_LIMIT
+            }
         );
 
         config.max_concurrent_farms = max_concurrent_farms;
